@@ -108,6 +108,100 @@ def program(t, as_var, wrapper, r, local_vars):
     return src, f"{env}|{m}"
 
 
+# ------------------------------------------------------------------------------------------------
+# placements with an IMPURE non-constant operand (differential only: the Lean model `codeVal` is pure)
+# ------------------------------------------------------------------------------------------------
+
+IMPURE_PRELUDE = (
+    "val zv = 0;\nval ov = 1;\nval five = 5;\nvar g;\nvar c;\nvar res;\n"
+    "func m1() is { 1('a', 0); g := g + 1; return 1 }\n"
+    "func m0() is { 1('b', 0); g := g + 2; return 0 }\n"
+    "func mk(val v) is { 1('k', 0); g := g + 4; return v }\n"
+    "func id(val x) is return x\n")
+
+
+def const_forms(v):
+    """X source forms of the compile-time constant v: literal, val, folded sub-tree, rewritten comparison"""
+    f = [str(v) if v >= 0 else f"(0 - {-v})"]
+    if v == 0:
+        f += ["false", "zv", "(3 - 3)", "(4 < 2)", "(1 ~= 1)", "(2 >= 3)", "(~true)", "(true and false)", "(ov - 1)"]
+    elif v == 1:
+        f += ["true", "ov", "(2 - 1)", "(2 < 4)", "(3 >= 2)", "(1 <= 1)", "(~false)", "(false or true)", "(1 ~= 2)"]
+    elif v == 5:
+        f += ["five", "(2 + 3)", "(7 - 2)", "(five + zv)", "#5"]
+    elif v > 0:
+        f += [f"({v} + 0)", f"({v + 1} - 1)"]
+    else:
+        f += [f"((0 - {-v}) + 0)", f"((0 - {-v - 1}) - 1)", f"(zv - {-v})"]
+    return f
+
+
+def impure_pairs(r, tier):
+    """[(label, source with C as a constant, source with C supplied through a variable)]"""
+    out = []
+    wrappers = ["assign", "exit", "if", "actual", "put"]
+
+    def program(expr, cval, wrapper, through_var, local):
+        cdecl = "  var c;\n" if (through_var and local) else ""
+        pre = f"c := {cval if cval >= 0 else '0 - ' + str(-cval)}; " if through_var else ""
+        if wrapper == "assign":
+            body = f"res := {expr}; 1(g + '0', 0); 0(res)"
+        elif wrapper == "exit":
+            body = f"0({expr})"
+        elif wrapper == "if":
+            body = f"if {expr} then 1('T', 0) else 1('F', 0); 1(g + '0', 0)"
+        elif wrapper == "actual":
+            body = f"res := id({expr}); 1(g + '0', 0); 0(res)"
+        else:
+            body = f"1(({expr}) + '0', 0); 1(g + '0', 0)"
+        return IMPURE_PRELUDE + "proc main() is\n" + cdecl + "{ g := 0; " + pre + body + " }\n"
+
+    logical_e = ["m1()", "m0()", "(~m1())", "(~m0())", "(m1() = 1)", "(mk(1) = 1)", "(mk(0) < 1)", "id(m0())"]
+    arith_e = ["mk(3)", "mk(0)", "mk(7)", "(mk(2) + 1)", "id(mk(5))"]
+    for op in ("and", "or"):
+        for cv in (0, 1):
+            forms = const_forms(cv)
+            for form in forms if tier != "quick" else forms[:1] + [r.choice(forms[1:]) for _ in range(4)]:
+                for e in (logical_e if tier != "quick" else [r.choice(logical_e) for _ in range(3)]):
+                    for left in (True, False):
+                        w = r.choice(wrappers) if op in ("and", "or") else "assign"
+                        if w == "if" or True:
+                            pass
+                        ce = f"{form} {op} {e}" if left else f"{e} {op} {form}"
+                        ve = f"c {op} {e}" if left else f"{e} {op} c"
+                        local = r.chance(1, 3)
+                        out.append((f"{op} C={form} E={e} {'C first' if left else 'E first'} in {w}",
+                                    program(ce, cv, w, False, False), program(ve, cv, w, True, local)))
+    for op in ("+", "-", "=", "~=", "<", "<=", ">", ">="):
+        for cv in (0, 1, 5, -3):
+            forms = const_forms(cv)
+            for form in forms if tier != "quick" else [forms[0], r.choice(forms)]:
+                for e in (arith_e if tier != "quick" else [r.choice(arith_e)]):
+                    for left in (True, False):
+                        w = r.choice(["assign", "exit", "actual"] if op in ("+", "-") else wrappers)
+                        ce = f"{form} {op} {e}" if left else f"{e} {op} {form}"
+                        ve = f"c {op} {e}" if left else f"{e} {op} c"
+                        out.append((f"{op} C={form} E={e} {'C first' if left else 'E first'} in {w}",
+                                    program(ce, cv, w, False, False), program(ve, cv, w, True, r.chance(1, 3))))
+    # nested: the constant decides an inner node whose sibling is impure, under another operator
+    for form0, form1 in zip(const_forms(0)[:6], const_forms(1)[:6]):
+        for tmpl, cv in (("(m1() and {C}) or m0()", 0), ("m0() or ({C} and m1())", 0), ("~(m1() and {C})", 0),
+                         ("(m0() or {C}) and m1()", 1), ("~({C} or m0())", 1), ("(mk(2) + {C}) - mk(1)", 1)):
+            form = form0 if cv == 0 else form1
+            w = "assign"
+            out.append((f"nested {tmpl} C={form}", program(tmpl.replace("{C}", form), cv, w, False, False),
+                        program(tmpl.replace("{C}", "c"), cv, w, True, False)))
+    return out
+
+
+def behaviour(o):
+    f = o.split(" ")
+    if f[0] != "ok":
+        return " ".join(f[:2])
+    d = dict(x.split("=", 1) for x in f[1:] if "=" in x)
+    return f"exit={d.get('exit')} out={d.get('out')}"
+
+
 def parse_model(o):
     return dict(x.split("=", 1) for x in o.split(" ") if "=" in x)
 
@@ -133,8 +227,7 @@ def run(tier, seed, replay=None):
     trees = []
     if replay:
         case = json.load(open(replay))
-        trees.append(("replay", json.loads(json.dumps(case["tree"]), object_hook=None)))
-        trees = [("replay", to_tuple(case["tree"]))]
+        trees = [("replay", to_tuple(case["tree"]))] if "tree" in case else []
     else:
         rd = os.path.join(C.ROOT, "replays")
         if os.path.isdir(rd):
@@ -243,6 +336,29 @@ def run(tier, seed, replay=None):
     if problems:
         rep.violation("proof", {"broken": problems}, no_input=not prop_bad)
 
+    # placements with an impure operand: constant written out vs supplied through a variable
+    pairs = impure_pairs(r, tier) if not replay else []
+    if replay and "source_const" in json.load(open(replay)):
+        cs = json.load(open(replay))
+        pairs = [(cs.get("label", "replay"), cs["source_const"], cs["source_var"])]
+    pair_bad = []
+    if pairs:
+        obs = c01.real_drive(h, [c01.real_line(src, b"", "-") for _, a, b in pairs for src in (a, b)])
+        for k, (label, a, b) in enumerate(pairs):
+            oa, ob = obs[2 * k], obs[2 * k + 1]
+            if behaviour(oa) != behaviour(ob) or not oa.startswith("ok "):
+                pair_bad.append((label, a, b, oa, ob))
+        for k, (label, a, b, oa, ob) in enumerate(sorted(pair_bad, key=lambda x: len(x[1]))[:4]):
+            rep.violation(f"pair{k}", {"property": PID, "seed": seed, "label": label, "source_const": a, "source_var": b,
+                                       "implementation_const": oa, "implementation_var": ob,
+                                       "note": "the program with the constant written out and the program with the same value "
+                                               "supplied through a variable behave differently (output incl. the markers "
+                                               "of the impure operand, exit value)",
+                                       "rerun": "./check C07 --replay <this file>"})
+        if replay:
+            for label, a, b, oa, ob in pair_bad or [(pairs[0][0], pairs[0][1], pairs[0][2], obs[0], obs[1])]:
+                print(f"--- {label}\n{a}const: {oa}\n{b}var  : {ob}")
+
     if replay:
         for rows in per_tree.values():
             for name, src, mline, m, ex, raw in rows:
@@ -259,10 +375,16 @@ def run(tier, seed, replay=None):
                 "random typed expression trees (depth 2-5), each in the placements const / vars / val / mixed; a case is one "
                 "(tree, placement) compiled by the real xcmp and run on the real hexsim; non-trivial = real exit value equals the "
                 "model's value for that placement; distinct by (model tree, placement)",
-        "samples": [jobs[0][2], jobs[min(len(jobs) - 1, 7)][2], jobs[-1][2]],
+        "samples": [jobs[0][2], jobs[min(len(jobs) - 1, 7)][2], jobs[-1][2]] if jobs else [p[1] for p in pairs[:1]],
         "trees": len(trees), "skipped_not_boolean_typed": skipped_bool, "operator_counts": dict(ops),
         "model_vs_impl_mismatches": len(tie_bad), "property_violations": len(prop_bad),
         "known_finding_placements": len(known),
+        "impure_operand_pairs": len(pairs), "impure_operand_pair_mismatches": len(pair_bad),
+        "impure_operand_stream": "differential only (constant written out vs the same value through a variable, with a call "
+                                 "that prints a marker and bumps a printed global as the other operand, for and/or and "
+                                 "+ - = ~= < <= > >=, both operand orders, constant forms literal/val/folded/rewritten, "
+                                 "placements assign/exit/if/actual/put and nested); the Lean model codeVal stays pure",
+        "impure_pair_samples": [p[1] for p in pairs[:1]],
         "property_violations_outside_finding_shape": len([x for x in prop_bad if x[4].get("d23") != "1"]),
         "traces_validated_against_impl": evaluations - len(tie_bad),
         "partial_theorems": ["C07_ops_partial (ordering comparisons restricted to representable differences; C07_ls_iff: tight)",
